@@ -17,6 +17,7 @@ mod c05;
 mod prog;
 mod c03;
 mod c17;
+mod c07;
 
 fn main() {
     let args: Vec<String> = std::env::args().collect();
@@ -51,6 +52,7 @@ fn main() {
         "C05" => c05::run(&mut sink, thorough, seed),
         "C03" => c03::run(&mut sink, thorough, seed),
         "C17" => c17::run(&mut sink, thorough, seed),
+        "C07" => c07::run(&mut sink, thorough, seed),
         "replay" => { /* replay lines are `op args…` on stdin */
             let mut s = String::new();
             use std::io::Read;
@@ -83,6 +85,7 @@ fn replay(sink: &mut common::Sink, toks: &[&str]) {
         "esc" | "escbufs" | "hex4" | "hex4s" | "scan" => c05::replay(sink, toks),
         "serc" | "serp" | "serbufs" | "serbufx" | "disp" => c03::replay(sink, toks),
         "maphist" | "mapeqh" | "mapeq" | "maphash" | "mapsort" => c17::replay(sink, toks),
+        "f64rt" | "f32rt" | "f64pr" | "f32pr" | "f32all" => c07::replay(sink, toks),
         _ => eprintln!("cannot replay op {}", toks[0]),
     }
 }
